@@ -33,12 +33,22 @@ def run(ctx):
     D.write_ndjson(ctx.path("cases.ndjson"), cases)
 
     # direction A (replay of TLC's cases) and direction B (seeded byte-mutated neighbours, generated Go-side)
-    raw_n = 1500 if ctx.tier == "quick" else 30000
+    raw_n = 1500 if ctx.tier == "quick" else 50000
     D.run_harness(ctx, binary, ["run", ctx.path("cases.ndjson"), ctx.path("obs.ndjson"), str(raw_n)])
     obs = D.read_ndjson(ctx.path("obs.ndjson"))
+    obs.sort(key=lambda o: o["id"])          # the harness writes from many goroutines
     n_raw = sum(1 for o in obs if o["cs"]["kind"] == "raw")
     if n_raw < raw_n * 0.8:
         raise D.Inconclusive("only %d byte-mutated neighbours were generated" % n_raw)
+
+    # dead-driver guard: every aspect of every case kind must have been observed
+    seen_aspects = {(o["cs"]["kind"], o["aspect"]) for o in obs}
+    expected = {("rest", a) for a in ("identity", "litfmt", "litparse", "identurl", "strongweak", "readback", "fromres")} | \
+               {("frag", a) for a in ("litparse", "identurl", "fragref", "readback")} | \
+               {("urn", a) for a in ("litparse", "identurl", "weakref", "readback")} | \
+               {("canon", "canon"), ("canon", "litparse"), ("pool", "isrel"), ("raw", "raw"), ("empty", "litparse")}
+    if expected - seen_aspects:
+        raise D.Inconclusive("dead driver: no observation for %s" % sorted(expected - seen_aspects))
 
     # role 3: judge, in chunks
     verdicts = judge_all(ctx, obs, "judge")
@@ -85,21 +95,16 @@ def judge_all(ctx, obs, tag):
 
 def corrupt_probe(ctx, obs):
     """Binding demonstration: alter one field of genuine records; the judge must reject exactly those."""
-    victims = []
-    for o in obs:
-        if o["aspect"] == "litparse" and o["cs"]["kind"] == "rest" and o["p1"]["k"] == "ok" and o["p1"]["ver"] != "" and not victims:
-            v = copy.deepcopy(o)
-            v["p1"]["ver"] = ""                      # the version is lost
-            victims.append(v)
-        if o["aspect"] == "readback" and o["cs"]["kind"] == "rest" and o["fs"]["k"] == "ok" and len(victims) == 1:
-            v = copy.deepcopy(o)
-            v["fs"]["s"] = v["fs"]["s"].lower()      # the typed reference reads back differently
-            victims.append(v)
-        if o["aspect"] == "isrel" and len(victims) == 2 and all(c in "TF" for row in o["m"] for c in row):
-            v = copy.deepcopy(o)
-            v["m"][0][1] = "F" if v["m"][0][1] == "T" else "T"   # symmetry broken
-            victims.append(v)
-            break
+    def first(pred):
+        return next((copy.deepcopy(o) for o in obs if pred(o)), None)
+    v1 = first(lambda o: o["aspect"] == "litparse" and o["cs"]["kind"] == "rest" and o["p1"]["k"] == "ok" and o["p1"]["ver"] != "")
+    v2 = first(lambda o: o["aspect"] == "readback" and o["cs"]["kind"] == "rest" and o["fs"]["k"] == "ok")
+    v3 = first(lambda o: o["aspect"] == "isrel" and all(c in "TF" for row in o["m"] for c in row))
+    victims = [v for v in (v1, v2, v3) if v is not None]
+    if len(victims) == 3:
+        v1["p1"]["ver"] = ""                                   # the version is lost
+        v2["fs"]["s"] = v2["fs"]["s"].lower() + "x"             # the typed reference reads back differently
+        v3["m"][0][1] = "F" if v3["m"][0][1] == "T" else "T"    # symmetry broken
     if len(victims) != 3:
         raise D.Inconclusive("corrupted-record probe: no suitable records")
     good = [o for o in obs if o["aspect"] == "litparse" and o["cs"]["kind"] == "rest" and o["p1"]["k"] == "ok"][-1]
